@@ -540,6 +540,24 @@ def c17(ctx: Ctx) -> None:
     gl = p.func(A, '_get_loop_lock')
     gg = build(gl, p, inline_module_helpers=True)
     stores = [n for n in gg.nodes if n.kind == 'store_sub' and isinstance(n.ast.value, ast.Name)]
+    # the lock table is the mapping the returned lock comes out of / goes into; other subscript stores of this function
+    # (a statistics dict on the side) are not entries of it
+    rets_ = [n for n in gg.nodes if n.kind == 'return' and n.ast.value is not None]
+    ret_names = {x.id for n in rets_ for x in ast.walk(n.ast.value) if isinstance(x, ast.Name)} \
+        | {x.id for n in rets_ for x in ast.walk(resolve(gg, n, n.ast.value)) if isinstance(x, ast.Name)}
+
+    def _holds_returned(st: Node) -> bool:
+        if st.ast.value.id in ret_names:
+            return True
+        stm = st.meta.get('stmt')
+        names = {x.id for x in ast.walk(stm) if isinstance(x, ast.Name)} if isinstance(stm, ast.AST) else set()
+        return bool((names - {st.ast.value.id}) & ret_names - set(gl.params))
+    lock_stores = [n for n in stores if _holds_returned(n)]
+    if lock_stores:
+        side_ = sorted({n.ast.value.id for n in stores} - {n.ast.value.id for n in lock_stores})
+        stores = [n for n in stores if n.ast.value.id in {m.ast.value.id for m in lock_stores}]
+        if side_:
+            ctx.note(f'C17-R3: subscript stores into {side_} are not entries of the lock table (the returned lock never passes through them)')
     if not stores:
         ctx.violation('C17-R3', 'no lock table store', f'{A}:{gl.lineno}', construct=construct_key('_get_loop_lock', 'no store'))
     u_ = gl.unit        # the module that holds the lock table (asyncio.py, or the private module it was moved to)
@@ -597,7 +615,8 @@ def c17(ctx: Ctx) -> None:
                               construct=construct_key(fsc.qualname, 'lock table entry removed', rm))
     if not n_rm:
         ctx.holds('C17-R3', 'entries of the lock table are removed by the loop finalizer only', f'{A}:{gl.lineno}')
-    subs = {norm(resolve(gg, n, n.ast.slice)) for n in gg.nodes if n.kind in ('load_sub', 'store_sub')}
+    subs = {norm(resolve(gg, n, n.ast.slice)) for n in gg.nodes if n.kind in ('load_sub', 'store_sub')
+            and isinstance(n.ast.value, ast.Name) and n.ast.value.id in tables_}
     ctx.check('C17-R3', f'table key {sorted(subs)} = id(<loop argument>)', f'{A}:{gl.lineno}',
               subs == {f'id({gl.params[0]})'}, 'one entry per loop object', 'the lock is not keyed by the loop',
               construct=construct_key('_get_loop_lock', 'key'))
@@ -856,8 +875,10 @@ def _affine_paths(f: Scope, program):
                     o = _It('eager:' + fn, *args)
                     vals.append(o)
                     return o
-                if fn in ('builtins.callable', 'builtins.isinstance'):
+                if fn in ('builtins.callable', 'builtins.isinstance', 'builtins.hasattr', 'builtins.issubclass'):
                     return ('test', fn, args)
+                if fn in ('builtins.type', 'builtins.id') and len(args) == 1 and not e.keywords:
+                    return ('inspect', fn, args)        # looks at the object, takes nothing from it
                 problems.append(f'unrecognised call {norm(e)}')
                 return ('unknown', norm(e))
             if isinstance(e, (ast.Compare, ast.BoolOp, ast.UnaryOp)):
@@ -1347,7 +1368,12 @@ def c19(ctx: Ctx) -> None:
         ee = [e for e in gt.succ[pc.id] if e.label == 'exc' and carries_exception(e.classes)]
         esc = [e for e in ee if e.dst is gt.raise_exit]
         rets_x = [n for n in gt.nodes if n.kind == 'return' and norm(n.ast.value) == xp]
-        w = must_pass(gt, [], [gt.exit, gt.raise_exit], rets_x, start_edges=ee)
+        # (what escapes from another call on the way - a reporting hook interrupted by KeyboardInterrupt / SystemExit - and
+        # carries no Exception is that call's own outcome, not the parser's failure)
+        def _not_foreign_interrupt(e, pc=pc):
+            return not (e.label == 'exc' and e.src is not pc and e.src.kind == 'call' and e.src not in pcalls
+                        and e.classes and not carries_exception(e.classes))
+        w = must_pass(gt, [], [gt.exit, gt.raise_exit], rets_x, start_edges=ee, edge_ok=_not_foreign_interrupt)
         ctx.check('C19-R4', f'any failure of {norm(pc.ast)} keeps the original', gt.loc(pc), bool(ee) and w is None and not esc and bool(rets_x),
                   'handler covers Exception and returns the input', 'a parser failure escapes (or the value is lost)', witness=render(gt, w),
                   construct=construct_key(tryp.qualname, 'parse failure'))
